@@ -4,11 +4,40 @@ SPEC = dict(
     coq_dir="C02",
     coq_targets=["C02/Proofs.vo", "C02/Examples.vo"],
     allowed_axioms=[],
-    harness_timeout=1500,
-    level_text="(filled in below)",
-    level_note="",
-    technique="",
-    modelled=[],
-    not_covered=[],
-    assumptions=[],
+    harness_timeout=2400,
+    level_text=("Partial by design: totality of ~45 kLoC is not a theorem here. What is proved (Coq, unbounded, no axioms) is that each "
+                "GUARD that makes skrifa's glyph loading total does its job for every input it can see, the guarded computation being an "
+                "adversarial oracle: ValueStack (all 14 operations, both pedantic modes, arbitrary closures, every capacity) never panics and "
+                "keeps 0 <= len <= capacity, and push/peek/pop/clear refine a plain list; Decycler<_,D> never indexes out of [0,D), is exactly a "
+                "stack of node ids with the depth cap and the depth/2 test, cuts every Enter-only descent longer than D and every eventually "
+                "periodic descent (prefix P, period L) within 2(P/L+1)L <= 2(P+L) Enters; CallStack is total with depth in [0,32]; the "
+                "interpreter run loop performs at most MAX_RUN_INSTRUCTIONS+1 dispatches for EVERY instruction oracle, never panics, keeps the "
+                "call depth <= 32 and the loop-budget counters <= limit; composite loading needs at most limit+2 frames on EVERY component map "
+                "and reports RecursionLimitExceeded on maps without finite descent. The models are tied to the code on every run: ~2400 "
+                "generated op sequences / crafted fpgm+prep programs (incl. two million-instruction runs that pin the +1 slack and the budget "
+                "formula through the reported pc) / composite graphs are executed on the real code and on the model (vm_compute). Everything "
+                "else of the property is TESTED only: an implementation-only totality search runs every public skrifa query, draw (sizes incl. "
+                "0/NaN/inf, wrong-length coords, every hinting engine/target, scratch buffers of size 0..required+8 at odd alignment), "
+                "ColorGlyph paint/bounding_box and the IFT client (select_next_patches/apply with hostile decoders and mutated patches) on all "
+                "font-test-data fonts under ~100k structure-aware mutations, in watchdogged sub-processes so that stack exhaustion, aborts and "
+                "runaway loops are observed as failures."),
+    level_note=("Trusted: Coq kernel; the hand-written models in coq/C02/Model.v (agreement with the Rust code is checked by correspondence, not proved); "
+                "the abstraction of instructions to their control-flow effect in the run-loop machine (the oracle may do anything else); the harness. "
+                "The 200-odd opcode bodies, CFF, autohinter, metrics/charmap/string glue and the IFT client are covered by the totality search only."),
+    technique="Coq proofs (invariants, refinement to list/stack specifications, fuel-adequacy) over hand-written Gallina models + vm_compute correspondence + watchdogged implementation-only fuzzing",
+    modelled=["skrifa/src/decycler.rs: Decycler::{new,enter}, DecyclerGuard::drop, verif_drive_decycler",
+              "skrifa/src/outline/glyf/hint/value_stack.rs: every method of ValueStack",
+              "skrifa/src/outline/glyf/hint/call_stack.rs: CallStack::{push,peek,pop,clear}",
+              "skrifa/src/outline/glyf/hint/engine/dispatch.rs: Engine::run (MAX_RUN_INSTRUCTIONS); engine/mod.rs: LoopBudget; engine/control_flow.rs: do_jump; engine/definition.rs: op_call/op_loopcall/op_fdef/op_endf, do_def scan; hint/program.rs: enter/leave; hint/definition.rs: DefinitionMap::{allocate,get} (concrete oracle instance used by the shards)",
+              "skrifa/src/outline/glyf/mod.rs: Outlines::outline_rec / Scaler::load + load_composite recursion guard (GLYF_COMPOSITE_RECURSION_LIMIT)"],
+    not_covered=["ValueStack::copy_index/move_index as list operations (totality proved; list-level specification only checked by correspondence)",
+                 "work bound of composite loading: the guard bounds depth, not the number of visits (exponential in fan-out: reported finding)",
+                 "TrueType opcode bodies other than control flow, zone/point/CVT index checks, CFF charstring evaluator and hinter, autohinter, COLR traversal, metrics/charmap/string glue: totality search only",
+                 "memory carving alloc_slice (proved by C12), IFT patch map / glyph-keyed / table-keyed code (C18/C19): totality search only here",
+                 "inner scan loops of op_if/op_else/do_def (bounded by bytecode length): modelled only inside the concrete oracle (do_def), not stated as theorems"],
+    assumptions=["Rust semantics in the overflow-checks + debug-assertions profile (usize arithmetic panics on overflow, slice indexing panics out of range, copy_within range checks)",
+                 "slices have length <= isize::MAX (hypotheses `zlen store <= isize_max`, `vop_ok`)",
+                 "loop-call counts handed to LoopBudget are positive i32 (guaranteed by op_loopcall's `count > 0` test; hypothesis count_ok)",
+                 "LoopBudget limit + 2^31 <= usize::MAX (c02_loop_limit_ok: holds for every u32 cvt length / point count on 64-bit targets)"],
+    trusted_base=["watchdog: a fuzz task that exceeds 20 s (quick) / 40 s (thorough) wall clock or kills its worker process is reported as an oracle failure"],
 )
